@@ -19,13 +19,20 @@ CHECKS = {
          "The C01 transition relation plus all observers, executed under a counting global allocator in three builds (no features, alloc, std): zero allocations inside any non-panicking crate call except boxed()/to_vec().", "§4 C17"),
  "C20": ("model_checking", "explicit-state BFS with a relocation monitor",
          "Every listed O(1) operation, remove and drain from every reachable state for capacities up to 8: number of surviving elements whose address changes is within the documented bound; make_contiguous relocates nothing when already contiguous.", "§4 C20"),
+
+ "C05": ("fault_enumeration", "exhaustive 1-deviation fault enumeration (k-th destructor call panics) on the real code",
+         "For every reachable layout, every element-destroying operation and argument, and every k, the k-th destructor call inside the operation panics once; afterwards: no destructor ran twice, the buffer is a valid sequence of live distinct elements, a follow-up battery matches the model seeded from the observed contents, and the final drop destroys nothing twice. Leaks tolerated.", "§4 C05"),
+ "C06": ("fault_enumeration", "exhaustive 1-deviation fault enumeration (k-th clone/closure/iterator/comparison call panics)",
+         "Same as C05 for panics in T::clone, fill closures, extend/from_iter iterators and element comparisons, at every call index k and every layout (incl. wrapped free space), plus: nothing that was created is left undestroyed once the buffer is dropped.", "§4 C06"),
+ "C10": ("fault_enumeration", "exhaustive enumeration of drain scripts with mem::forget after every prefix",
+         "Every layout x every range x every script over {next,next_back} with mem::forget(drain) after every prefix: buffer afterwards holds live, distinct elements of the original contents disjoint from those handed out; follow-up battery vs. model; final drop destroys nothing twice.", "§4 C10"),
 }
 
 NOT_APPLICABLE = {
  "C15": "compile-time contracts (variance, borrows, const-ness, auto traits): decided by the type checker on witness programs, there is no execution/state/history to enumerate, so model checking does not apply (DESIGN §5).",
 }
 # properties whose checks are still being built (kept here so the manifest is valid at every commit)
-PENDING = {'C04': 'check under construction in this round (garbage-planting non-interference space)', 'C05': 'check under construction (destructor-panic fault enumeration)', 'C06': 'check under construction (user-code panic fault enumeration)', 'C07': 'check under construction (view agreement predicate)', 'C08': 'check under construction (iterator script enumeration)', 'C09': 'check under construction (drain script enumeration)', 'C10': 'check under construction (drain leak enumeration)', 'C12': 'check under construction (constructors/conversions)', 'C13': 'check under construction (pairwise comparison space)', 'C14': 'check under construction (byte I/O fixpoint)', 'C16': 'check under construction (embedded-io differential)', 'C18': 'check under construction (unstable-feature differential)', 'C19': 'check under construction (ZST / huge capacities)'}
+PENDING = {'C04': 'check under construction in this round (garbage-planting non-interference space)', 'C07': 'check under construction (view agreement predicate)', 'C08': 'check under construction (iterator script enumeration)', 'C09': 'check under construction (drain script enumeration)', 'C12': 'check under construction (constructors/conversions)', 'C13': 'check under construction (pairwise comparison space)', 'C14': 'check under construction (byte I/O fixpoint)', 'C16': 'check under construction (embedded-io differential)', 'C18': 'check under construction (unstable-feature differential)', 'C19': 'check under construction (ZST / huge capacities)'}
 
 def main():
     checks = []
